@@ -52,7 +52,7 @@ func readAs(t string, in []byte, tag byte) (o rd) {
 	var err error
 	switch t {
 	case "bool":
-		var v bool
+		v := true // every target holds junk before the read: a successful read replaces it completely
 		err = r.ReadBool(&v, tag, true)
 		if v {
 			o.V = []int{1}
@@ -60,45 +60,45 @@ func readAs(t string, in []byte, tag byte) (o rd) {
 			o.V = []int{0}
 		}
 	case "int8":
-		var v int8
+		var v int8 = 0x5a
 		err = r.ReadInt8(&v, tag, true)
 		o.V = ints(be(1, uint64(v)))
 	case "uint8":
-		var v uint8
+		var v uint8 = 0xa5
 		err = r.ReadUint8(&v, tag, true)
 		o.V = ints(be(1, uint64(v)))
 	case "int16":
-		var v int16
+		var v int16 = 0x5a5a
 		err = r.ReadInt16(&v, tag, true)
 		o.V = ints(be(2, uint64(v)))
 	case "uint16":
-		var v uint16
+		var v uint16 = 0xa5a5
 		err = r.ReadUint16(&v, tag, true)
 		o.V = ints(be(2, uint64(v)))
 	case "int32":
-		var v int32
+		var v int32 = 0x5a5a5a5a
 		err = r.ReadInt32(&v, tag, true)
 		o.V = ints(be(4, uint64(v)))
 	case "uint32":
-		var v uint32
+		var v uint32 = 0xa5a5a5a5
 		err = r.ReadUint32(&v, tag, true)
 		o.V = ints(be(4, uint64(v)))
 	case "int64":
-		var v int64
+		var v int64 = 0x5a5a5a5a5a5a5a5a
 		err = r.ReadInt64(&v, tag, true)
 		o.V = ints(be(8, uint64(v)))
 	case "float32":
-		var v float32
+		var v float32 = 1234.5
 		err = r.ReadFloat32(&v, tag, true)
 		o.V = ints(be(4, uint64(math.Float32bits(v))))
 		o.NaN = v != v
 	case "float64":
-		var v float64
+		var v float64 = -9876.25
 		err = r.ReadFloat64(&v, tag, true)
 		o.V = ints(be(8, math.Float64bits(v)))
 		o.NaN = v != v
 	case "string":
-		var v string
+		v := "junk"
 		err = r.ReadString(&v, tag, true)
 		o.V = ints([]byte(v))
 	default:
